@@ -123,6 +123,8 @@ def limit_programs(dev):
             {"op": "add", "lw": P, "wells": L([(1, 0)]), "vols": S(BIG), "label": None},
             {"op": "add", "lw": T, "wells": L([(0, 1), (2, 1)]), "vols": L([6, 6]), "label": None},     # alias: 0+6+6 = 12 = max ok
             {"op": "add", "lw": T, "wells": L([(1, 1)]), "vols": S(1), "label": None},                  # overflow via alias
+            {"op": "add", "lw": P, "wells": L([(0, 0), (1, 0)]), "vols": L([1, -1]), "label": "negative"},
+            {"op": "remove", "lw": P, "wells": L([(0, 0)]), "vols": S(-2), "label": "negative"},
         ], unit=unit)
         prog(f"remove-{tag}", [
             {"op": "remove", "lw": P, "wells": L([(0, 0)]), "vols": S(8), "label": "down to min"},      # 10 - 8 = 2 = min ok
@@ -426,7 +428,8 @@ def kwarg_programs(dev):
         h = _hdr(f"kwargs/dist-{name}", dev, base_labware(), flags={"comp": False, "norm": False})
         op = {"op": "distribute", "src": T, "col": 0, "dst": P, "dw": L([(0, 1), (1, 1)]), "vol": 2, "label": "d"}
         op[fld] = val
-        h["ops"] = [op, {"op": "distribute", "src": T, "col": 1, "dst": P, "dw": L([(0, 2)]), "vol": 1, "label": "two\nlines",
+        h["ops"] = [op, {"op": "distribute", "src": P, "col": 0, "dst": P, "dw": L([(0, 2)]), "vol": 1, "label": "not a trough"},
+                    {"op": "distribute", "src": T, "col": 1, "dst": P, "dw": L([(0, 2)]), "vol": 1, "label": "two\nlines",
                          "sid": "SRC", "stype": "Trough 100ml", "did": "DST", "dtype": "96 Well", "lc": "W", "md": 6, "reuse": 3}]
         progs.append(h)
     return progs
